@@ -144,8 +144,10 @@ func checkC10(t *testing.T, c *c10Case, rec *Recorder) []Diff {
 					found = true
 				}
 			}
-			// a fatal fault on Close does not have to surface; require the chain to expose a non-Close sentinel
-			if !found {
+			// a fatal fault on Close does not have to surface; require the chain to expose a non-Close sentinel.
+			// When a zero-length read fired as well, whichever of the two the run noticed first is reported,
+			// and the zero-length one carries no sentinel (the tool words that error itself).
+			if !found && !anyZero {
 				add("cause-lost", "returned error does not wrap the injected cause (errors.Is false for all %d fired sentinels): %v", len(w.Fired), o.Err)
 			}
 		}
@@ -176,7 +178,7 @@ func checkC10(t *testing.T, c *c10Case, rec *Recorder) []Diff {
 	}
 	// only growth is a leak (a finalizer of an earlier case may close a descriptor in between)
 	if o.FdBefore >= 0 && o.FdAfter > o.FdBefore {
-		add("fd-leak", "%d file descriptors before, %d after (faults %+v)", o.FdBefore, o.FdAfter, sc.Faults)
+		add("fd-leak", "%d file descriptors before, %d after (faults %+v); open now: %s", o.FdBefore, o.FdAfter, sc.Faults, o.FdList)
 	}
 	rec.Case(scenarioKey(sc), nt, map[string]any{"variant": sc.Variant, "faults": sc.Faults, "err": fmt.Sprint(o.Err)}, labels...)
 	return ds
@@ -298,6 +300,9 @@ func clampEarly(sc *Scenario) {
 			if h.DupsUs[i] > lim {
 				h.DupsUs[i] %= lim + 1
 			}
+		}
+		if h.BothDelayUs > lim {
+			h.BothDelayUs %= lim + 1
 		}
 		return h
 	}
